@@ -216,6 +216,8 @@ Fixpoint pa_hpred_src (p : pa_hpred) : Prop :=
   match p with
   | PaHCmp _ x y => pa_hexp_src x /\ pa_hexp_src y
   | PaHAnd p q | PaHOr p q => pa_hpred_src p /\ pa_hpred_src q
+  | PaHCase _ es => Forall pa_hexp_src es
+  | PaHCaseCmp _ _ es z => Forall pa_hexp_src es /\ pa_hexp_src z
   end.
 
 Lemma pa_lookup_hidden_row : forall q hc g m,
@@ -295,12 +297,43 @@ Proof.
     + rewrite Hhc. rewrite <- !app_assoc. reflexivity.
 Qed.
 
+Lemma pa_hx_list_sem : forall q hc g es n pre post,
+  Forall pa_hexp_src es ->
+  length pre = n -> hc = pre ++ snd (pa_hx_list n es) ++ post ->
+  map (fun e => pa_heval e (pa_post_row q (pa_base_row q hc g))) (fst (pa_hx_list n es))
+  = map (fun e => pa_hsem_exp (pq_items q) e g) es.
+Proof.
+  intros q hc g. induction es as [|e es IH]; intros n pre post Hsrc Hlen Hhc; [reflexivity|].
+  inversion Hsrc as [|e0 es0 Se Ses]; subst e0 es0. simpl in *.
+  destruct (pa_hx_exp n e) as [e' ce] eqn:Ee.
+  destruct (pa_hx_list (n + length ce) es) as [es' cs] eqn:Es. simpl in *.
+  pose proof (pa_hx_exp_sem q hc g e n pre (cs ++ post) Se Hlen) as He. rewrite Ee in He. simpl in He.
+  pose proof (IH (n + length ce) (pre ++ ce) post Ses) as Hl. rewrite Es in Hl. simpl in Hl.
+  rewrite He, Hl; [reflexivity| | |].
+  - rewrite app_length. lia.
+  - rewrite Hhc. rewrite <- !app_assoc. reflexivity.
+  - rewrite Hhc. rewrite <- !app_assoc. reflexivity.
+Qed.
+
 Lemma pa_hx_pred_sem : forall q hc g p n pre post,
   pa_hpred_src p ->
   length pre = n -> hc = pre ++ snd (pa_hx_pred n p) ++ post ->
   pa_hholds (fst (pa_hx_pred n p)) (pa_post_row q (pa_base_row q hc g)) = pa_hsem (pq_items q) p g.
 Proof.
-  intros q hc g. induction p as [o x y|p IHp r IHr|p IHp r IHr]; intros n pre post Hsrc Hlen Hhc; simpl in *.
+  intros q hc g. induction p as [o x y|p IHp r IHr|p IHp r IHr|ops es|o ops es z];
+    intros n pre post Hsrc Hlen Hhc; simpl in *.
+  5:{ destruct Hsrc as [Ses Sz].
+      destruct (pa_hx_list n es) as [es' cs] eqn:Es.
+      destruct (pa_hx_exp (n + length cs) z) as [z' cz] eqn:Ez. simpl in *.
+      pose proof (pa_hx_list_sem q hc g es n pre (cz ++ post) Ses Hlen) as Hl. rewrite Es in Hl. simpl in Hl.
+      pose proof (pa_hx_exp_sem q hc g z (n + length cs) (pre ++ cs) post Sz) as Hz. rewrite Ez in Hz. simpl in Hz.
+      rewrite Hl, Hz; [reflexivity| | |].
+      - rewrite app_length. lia.
+      - rewrite Hhc. rewrite <- !app_assoc. reflexivity.
+      - rewrite Hhc. rewrite <- !app_assoc. reflexivity. }
+  4:{ destruct (pa_hx_list n es) as [es' cs] eqn:Es. simpl in *.
+      pose proof (pa_hx_list_sem q hc g es n pre post Hsrc Hlen) as Hl. rewrite Es in Hl. simpl in Hl.
+      rewrite Hl; [reflexivity|assumption]. }
   - destruct Hsrc as [Sx Sy].
     destruct (pa_hx_exp n x) as [x' cx] eqn:Ex.
     destruct (pa_hx_exp (n + length cx) y) as [y' cy] eqn:Ey. simpl in *.
@@ -340,6 +373,89 @@ Proof.
   inversion Hp'. subst p0.
   pose proof (pa_hx_pred_sem q cs g p 0 [] [] Hsrc eq_refl) as H. rewrite E in H. simpl in H.
   apply H. rewrite app_nil_r. reflexivity.
+Qed.
+
+(* the rewriting keeps the shape the routing of applyHavingFilter looks at *)
+Lemma pa_hx_has_case : forall p n, pa_has_case (fst (pa_hx_pred n p)) = pa_has_case p.
+Proof.
+  induction p as [o x y|p IHp r IHr|p IHp r IHr|ops es|o ops es z]; intro n; simpl.
+  - destruct (pa_hx_exp n x) as [x' cx]. destruct (pa_hx_exp (n + length cx) y) as [y' cy]. reflexivity.
+  - specialize (IHp n). destruct (pa_hx_pred n p) as [p' cp]. specialize (IHr (n + length cp)).
+    destruct (pa_hx_pred (n + length cp) r) as [r' cr]. simpl in *. rewrite IHp, IHr. reflexivity.
+  - specialize (IHp n). destruct (pa_hx_pred n p) as [p' cp]. specialize (IHr (n + length cp)).
+    destruct (pa_hx_pred (n + length cp) r) as [r' cr]. simpl in *. rewrite IHp, IHr. reflexivity.
+  - destruct (pa_hx_list n es) as [es' cs]. reflexivity.
+  - destruct (pa_hx_list n es) as [es' cs]. destruct (pa_hx_exp (n + length cs) z) as [z' cz]. reflexivity.
+Qed.
+
+(* the HAVING texts on which the filter evaluates the condition: no CASE at all, or the CASE is the
+   whole condition and none of its operands is a bare GROUP BY column *)
+Definition pa_hroute_ok (p : pa_hpred) : Prop :=
+  match p with
+  | PaHCmp _ _ _ => True
+  | PaHCase _ es => Forall (fun e => pa_int_typed e = false) es
+  | PaHAnd _ _ | PaHOr _ _ => pa_has_case p = false
+  | PaHCaseCmp _ _ _ _ => False
+  end.
+
+Lemma pa_case_keep_truthy : forall ops (es : list pa_hexp) vs,
+  length es = length vs -> Forall (fun e => pa_int_typed e = false) es ->
+  match pa_case_sel ops vs (combine es vs) with
+  | Some (e, Some q) => if pa_int_typed e then true else pa_cmp_holds PaGt q 0
+  | _ => false
+  end = pa_truthy (pa_case_val ops vs).
+Proof.
+  unfold pa_case_val.
+  induction ops as [|o ops IH]; intros es vs Hlen Hall.
+  - destruct vs as [|v [|v2 vs]]; destruct es as [|e [|e2 es]]; simpl in *; try discriminate; try reflexivity.
+    inversion Hall as [|? ? He _]; subst. rewrite He. destruct v; reflexivity.
+  - destruct vs as [|x [|y [|r vs]]]; destruct es as [|e1 [|e2 [|e3 es]]]; simpl in *; try discriminate; try reflexivity.
+    inversion Hall as [|? ? _ H1]; subst. inversion H1 as [|? ? _ H2]; subst. inversion H2 as [|? ? He3 H3]; subst.
+    destruct (pa_cmp_opt o x y).
+    + rewrite He3. destruct r; reflexivity.
+    + apply IH; [lia|assumption].
+Qed.
+
+Lemma pa_hx_exp_int_typed : forall e n, pa_int_typed (fst (pa_hx_exp n e)) = pa_int_typed e.
+Proof.
+  intros [c|c|x|o x y] n; simpl; try reflexivity.
+  destruct (pa_hx_exp n x) as [x' cx]. destruct (pa_hx_exp (n + length cx) y) as [y' cy]. reflexivity.
+Qed.
+
+Lemma pa_hx_list_int_typed : forall es n,
+  Forall (fun e => pa_int_typed e = false) es ->
+  Forall (fun e => pa_int_typed e = false) (fst (pa_hx_list n es)).
+Proof.
+  induction es as [|e es IH]; intros n H; simpl; [constructor|].
+  inversion H as [|? ? He Hes]; subst.
+  pose proof (pa_hx_exp_int_typed e n) as E. destruct (pa_hx_exp n e) as [e' ce]. simpl in E.
+  specialize (IH (n + length ce) Hes). destruct (pa_hx_list (n + length ce) es) as [es' cs]. simpl in *.
+  constructor; [rewrite E; assumption|assumption].
+Qed.
+
+Lemma pa_hkeep_holds : forall p n r, pa_hroute_ok p ->
+  pa_hkeep (fst (pa_hx_pred n p)) r = pa_hholds (fst (pa_hx_pred n p)) r.
+Proof.
+  intros p n r Hok. pose proof (pa_hx_has_case p n) as Hc. destruct p as [o x y|p1 p2|p1 p2|ops es|o ops es z]; simpl in *.
+  - destruct (pa_hx_exp n x) as [x' cx]. destruct (pa_hx_exp (n + length cx) y) as [y' cy]. reflexivity.
+  - destruct (pa_hx_pred n p1) as [p' cp]. destruct (pa_hx_pred (n + length cp) p2) as [r' cr]. simpl in *.
+    rewrite Hc, Hok. reflexivity.
+  - destruct (pa_hx_pred n p1) as [p' cp]. destruct (pa_hx_pred (n + length cp) p2) as [r' cr]. simpl in *.
+    rewrite Hc, Hok. reflexivity.
+  - pose proof (pa_hx_list_int_typed es n Hok) as Hes. destruct (pa_hx_list n es) as [es' cs]. simpl in *.
+    unfold pa_case_keep. apply pa_case_keep_truthy; [rewrite map_length; reflexivity|assumption].
+  - contradiction.
+Qed.
+
+(* what the filter keeps: on those texts a group is kept iff it satisfies the relational condition *)
+Theorem pa_having_keep_sem : forall q p p' g,
+  pq_having q = Some p -> pa_hpred_src p -> pa_hroute_ok p -> fst (pa_hx q) = Some p' ->
+  pa_hkeep p' (pa_post_row q (pa_base_row q (snd (pa_hx q)) g)) = pa_survives q g.
+Proof.
+  intros q p p' g Hq Hsrc Hok Hp'. rewrite <- (pa_having_sem q p p' g Hq Hsrc Hp').
+  unfold pa_hx in Hp'. rewrite Hq in Hp'.
+  pose proof (pa_hkeep_holds p 0 (pa_post_row q (pa_base_row q (snd (pa_hx q)) g)) Hok) as H.
+  destruct (pa_hx_pred 0 p) as [p0 cs]. simpl in *. inversion Hp'. subst p0. exact H.
 Qed.
 
 (* ------------------------------------------------------------------ a grouped batch *)
